@@ -125,13 +125,13 @@ pub struct SortCase {
     pub by_key: bool,
 }
 
-fn sort_strategy() -> BoxedStrategy<SortCase> {
+pub fn sort_strategy() -> BoxedStrategy<SortCase> {
     (proptest::collection::vec(0u16..60, 0..40), addr_strategy(), 0u8..45, any::<bool>())
         .prop_map(|(peers, target, n, by_key)| SortCase { peers, target, n, by_key })
         .boxed()
 }
 
-fn check_sort(c: &SortCase, ctx: &mut Ctx) {
+pub fn check_sort(c: &SortCase, ctx: &mut Ctx) {
     let mut seen = std::collections::BTreeSet::new();
     let ids: Vec<u16> = c.peers.iter().copied().filter(|p| seen.insert(*p)).collect();
     let peers: Vec<PeerId> = ids.iter().map(|i| fix::peer(*i as u64)).collect();
@@ -367,14 +367,14 @@ pub struct FetchCase {
     pub full_at_rank: Option<u8>,
 }
 
-fn fetch_strategy() -> BoxedStrategy<FetchCase> {
+pub fn fetch_strategy() -> BoxedStrategy<FetchCase> {
     let mask = |p_true: u32| proptest::collection::vec(proptest::bool::weighted(p_true as f64 / 100.0), 40);
     (0u8..8, mask(90), proptest::collection::vec(mask(50), 1..3), proptest::collection::vec(any::<u16>(), 1..vh_core::depth(40, 80)), proptest::option::weighted(0.4, 0u8..40))
         .prop_map(|(node, first, more, completes, full_at_rank)| FetchCase { node, first, more, completes, full_at_rank })
         .boxed()
 }
 
-fn check_fetch_order(case: &FetchCase, ctx: &mut Ctx) {
+pub fn check_fetch_order(case: &FetchCase, ctx: &mut Ctx) {
     use ant_protocol::storage::RecordType;
     use std::collections::{HashMap, HashSet};
     let mut w = crate::c08::World::new(case.node);
@@ -544,5 +544,7 @@ pub fn run(cfg: RunCfg) {
         "C10's store histories (puts at arbitrary distances at small capacities, acknowledgements, ranges, clean-ups, restarts) judged only for ordering by distance: farthest record, eviction victim, in-range sets, distance index. non-trivial as in C10",
         crate::c10::case_strategy, check_store_distance_order
     );
+    vh_core::fuzz_section!(rep, "fetch_order", fetch_strategy, check_fetch_order, "sec_store", "store", 200_000, 180, 8);
+    vh_core::fuzz_section!(rep, "sort", sort_strategy, check_sort, "sec_store", "store", 200_000, 120, 4);
     rep.finish();
 }
